@@ -425,6 +425,53 @@ def build():
     for kind in ("single", "all", "any"):
         R.add(f"wait_{kind}[exit-condition]", kind="lia", samples=60, inductive=True)(mk_wait(kind))
 
+    # ------------------------------------------------------------------ responses in the qlink-interface 1.0 format
+    # _handle_epr_response converts them first; the role (directionality), the request key (remote node, purpose) and the
+    # pair's data must survive the conversion field by field, for all field values.
+    def mk_convert(kind):
+        def f(ctx):
+            import qlink_interface as q10
+            from netqasm import qlink_compat as QC
+            common = dict(create_id=ctx.int("create_id", 0, 2 ** 31), directionality_flag=ctx.int("directionality_flag", 0, 1), sequence_number=ctx.int("sequence_number", 0, 2 ** 31),
+                          purpose_id=ctx.int("purpose_id", 0, 2 ** 16), remote_node_id=ctx.int("remote_node_id", 0, 2 ** 16), goodness=ctx.int("goodness", 0, 2 ** 31),
+                          bell_state=ctx.enum("bell_state", q10.BellState))
+            if kind == "keep":
+                r = q10.ResCreateAndKeep(logical_qubit_id=ctx.int("logical_qubit_id", 0, 2 ** 16), time_of_goodness=ctx.int("time_of_goodness", 0, 2 ** 31), **common)
+                pairs = [("logical_qubit_id", "logical_qubit_id"), ("goodness_time", "time_of_goodness")]
+                tp, cls = QC.ReturnType.OK_K, QC.LinkLayerOKTypeK
+            elif kind == "measure":
+                r = q10.ResMeasureDirectly(measurement_outcome=ctx.int("measurement_outcome", 0, 1), measurement_basis=ctx.enum("measurement_basis", q10.MeasurementBasis), **common)
+                pairs = [("measurement_outcome", "measurement_outcome")]
+                tp, cls = QC.ReturnType.OK_M, QC.LinkLayerOKTypeM
+            else:
+                r = q10.ResError(create_id=common["create_id"], error_code=ctx.enum("error_code", q10.ErrorCode), use_sequence_number_range=ctx.choice("range", [False, True]),
+                                 sequence_number_low=ctx.int("low", 0, 2 ** 31), sequence_number_high=ctx.int("high", 0, 2 ** 31), origin_node_id=ctx.int("origin", 0, 2 ** 16))
+                pairs = [(n, n) for n in ("error_code", "use_sequence_number_range", "sequence_number_low", "sequence_number_high", "origin_node_id")]
+                tp, cls = QC.ReturnType.ERR, QC.LinkLayerErr
+            out = ctx.call(QC.response_from_qlink_1_0, r)
+            ctx.check("converted to the matching response class and type", isinstance(out, cls) and out.type is tp)
+            names = ["create_id"] + ([] if kind == "error" else ["directionality_flag", "sequence_number", "purpose_id", "remote_node_id", "goodness"])
+            for n in names:
+                ctx.check(f"field[{n}] carried over", ctx.eq(getattr(out, n), getattr(r, n)))
+            for a, b in pairs:
+                ctx.check(f"field[{a}] carried over", _same(ctx, getattr(out, a), getattr(r, b)))
+            if kind != "error":
+                ctx.check("field[bell_state] carried over (same member)", _same(ctx, out.bell_state, r.bell_state))
+            if kind == "measure":
+                ctx.check("field[measurement_basis] carried over (same member)", _same(ctx, out.measurement_basis, r.measurement_basis))
+        return f
+
+    def _same(ctx, a, b):
+        import enum as _enum
+        from pyvc.values import SEnum
+        va = ctx.getattr(a, "value") if isinstance(a, (SEnum, _enum.Enum)) else a
+        vb = ctx.getattr(b, "value") if isinstance(b, (SEnum, _enum.Enum)) else b
+        na = ctx.getattr(a, "name") if isinstance(a, (SEnum, _enum.Enum)) else None
+        nb = ctx.getattr(b, "name") if isinstance(b, (SEnum, _enum.Enum)) else None
+        return ctx.and_(ctx.eq(va, vb), ctx.eq(na, nb) if (na is not None and nb is not None and isinstance(na, str) and isinstance(nb, str)) else True)
+    for kind in ("keep", "measure", "error"):
+        R.add(f"convert[qlink-interface 1.0 {kind} response]", kind="lia", samples=40, max_paths=400)(mk_convert(kind))
+
     def canary(ctx):
         ex, spec, new, tabs = _scenario(ctx, 2, 0)
         if ctx.symbolic:
